@@ -21,6 +21,22 @@ CHECKS = {
              "tracks (all 32 lane combinations, flags, gaps of 1, S/E lines interleaved, ticks up to 10^8) is judged "
              "by TLC evaluating Props!C02V.",
         design="5 (C02)", technique="TLA+ model checking (TLC) + spec->code replay of TLC behaviours + TLC trace validation of recorded parses"),
+    "C03": dict(
+        text="TLC model-checks the sustain decision table (Sustain.tla: all 4^5 lane/length patterns x open x flags; the code-shaped "
+             "first-non-none computation against the declarative SustainAt/LongestAt), every cell is replayed into the real parser "
+             "across tempo changes, and observations on seeded tracks are judged by TLC evaluating Props!C03V (sustain, longest, end tick, "
+             "end time = un-hinted query at the end tick, end >= start, last-note-end = max).",
+        design="5 (C03)", technique="TLA+ decision-table model checking (TLC) + replay of every cell into the parser + TLC trace validation"),
+    "C04": dict(
+        text="TLC model-checks the HOPO decision table (Hopo.tla: 32x32 ordered lane-combination pairs x 5 distance classes around the threshold x "
+             "(tap, forced) per resolution; code-shaped computation vs. Notes!HopoOf; threshold law for every resolution up to 10^6), every cell "
+             "is replayed into the real parser packed into tracks, and seeded tracks at seeded resolutions are judged by TLC evaluating Props!C04V.",
+        design="5 (C04)", technique="TLA+ decision-table model checking (TLC) + replay of every cell into the parser + TLC trace validation"),
+    "C05": dict(
+        text="TLC model-checks the star-power cursor of the NoteTrack machine (invariants C05 and CursorSound over every arrangement of up to 3 phrases "
+             "and note sets in scope), replays the terminal states into the real parser and judges seeded long tracks with up to 40 phrases by "
+             "TLC evaluating Props!C05V (half-open cover, first covering phrase).",
+        design="5 (C05)", technique="TLA+ model checking (TLC) of the cursor machine + spec->code replay + TLC trace validation"),
 }
 
 PENDING = {}
